@@ -6,6 +6,8 @@ CONSTANTS MaxPages = 6
  Reads = {2}
  BackUpRule = "begin"
  HandOver = "refetch"
+ GuessRule = "clamped"
+ Lies = FALSE
 INVARIANT Terminates
 INVARIANT SubmitsTheRightPage
 CHECK_DEADLOCK FALSE
